@@ -96,7 +96,7 @@ def gen_options(rng, n, chrom_of, idx):
 def work_cap(nnz, opts, rng):
     """chunk size such that ceil(nnz/chunksize) * max_iters stays <= ~2000 fetches."""
     it = min(opts["max_iters"], 120)
-    choices = [c for c in (1, 2, 3, 7, max(nnz // 3, 1), nnz, nnz + 1, 10**7, None)
+    choices = [c for c in (1, 2, 3, 7, max(nnz // 3, 1), max(nnz, 1), nnz + 1, 10**7, None)
                if c is None or (-(-nnz // c)) * it <= 700]
     return choices[int(rng.integers(len(choices)))]
 
